@@ -279,8 +279,14 @@ def run(chk, ctx):
     # primitive pairs
     pairs.check_method_types(chk, ctx, 'C02.T', sorted(
         {t for t in types.values() if isinstance(t, str)}))
-    chk.assume('header tables round-trip as decided by C03; timestamps as '
-               'decided by C15')
+    # the timestamp property: the value written is the instant denoted
+    if 'timestamp' in types.values():
+        from .. import tsrules
+        tsres, _n = tsrules.timestamp_operands(ctx)
+        for cons, okk, why in tsres:
+            chk.ob('C02.T', cons, okk, why,
+                   site='pamqp/encode.py::timestamp')
+    chk.assume('header tables round-trip as decided by C03')
     chk.units['properties'] = len(slots)
 
 
